@@ -45,6 +45,7 @@ pub fn extract<'tcx>(tcx: TyCtxt<'tcx>) -> J {
     let mut impls = Vec::new();
     let mut consts = Vec::new();
     let mut traits = Vec::new();
+    let mut private_traits = Vec::new();
     for ldid in tcx.hir_crate_items(()).definitions() {
         let did = ldid.to_def_id();
         match tcx.def_kind(did) {
@@ -55,7 +56,12 @@ pub fn extract<'tcx>(tcx: TyCtxt<'tcx>) -> J {
                     consts.push(c)
                 }
             }
-            DefKind::Trait => traits.push(J::s(cx.stable_path(did))),
+            DefKind::Trait => {
+                traits.push(J::s(cx.stable_path(did)));
+                if !tcx.effective_visibilities(()).is_reachable(ldid) {
+                    private_traits.push(J::s(cx.stable_path(did)));
+                }
+            }
             _ => {}
         }
     }
@@ -81,6 +87,7 @@ pub fn extract<'tcx>(tcx: TyCtxt<'tcx>) -> J {
         .put("impls", J::Arr(impls))
         .put("consts", J::Arr(consts))
         .put("traits", J::Arr(traits))
+        .put("private_traits", J::Arr(private_traits))
         .put("types", J::Arr(std::mem::take(&mut cx.types)))
         .done()
 }
